@@ -4,6 +4,7 @@
   first step of `compileRoutineWith`.  PARTIAL: that no exception originates inside sympy is outside any model of bartiq.
 -/
 import BartiqModel.Pipeline
+import BartiqProofs.SortTreeLemmas
 namespace Bartiq
 
 /-- any topology or repetition problem anywhere in the hierarchy ⇒ a compilation error, before preprocessing or compilation
@@ -56,5 +57,19 @@ theorem C17_skip_verification (stages : List Stage) (C : Comparator) (r : Routin
 -- non-vacuity: a wrapper with a repetition and no children is rejected
 example : repetitionProblemsHere (Routine.mk "w" none [] [] [] [] [] [] (some ⟨.num 3, .constant (.num 1)⟩) [] [] []) ≠ [] := by
   decide
+
+/-- **a connection cycle among the children of a routine is always rejected with a compilation error** — also the cycles that
+    qref's own `verify_topology` does not see (closed through a child's through port, F13): whenever some child is, along the
+    child-to-child wires, (transitively) its own predecessor, `sorted_children_order` — and with it `_compile` — ends in a
+    compilation error: the listed order cannot pass the data-flow scan and the topological sorter cannot return an order
+    (correctness of the model of graphlib's static_order, GraphLemmas) -/
+theorem C17_child_cycle_is_compilation_error (names ord : List String) (conns : List (Endpoint × Endpoint)) (a : String)
+    (hnd : ord.Nodup) (hall : ∀ n ∈ names, n ∈ ord) (hc : Graph.Before (childGraph names conns) a a) :
+    ∃ m, sortedChildrenOrder names ord conns = .error (.compilation m) :=
+  sortedChildrenOrder_cycle names ord conns a hnd hall hc
+
+-- non-vacuity: a.out -> b.in, b.out -> a.in is such a cycle
+example : Graph.Before (childGraph ["a", "b"] [(⟨some "a", "out"⟩, ⟨some "b", "in"⟩), (⟨some "b", "out"⟩, ⟨some "a", "in"⟩)]) "a" "a" :=
+  Graph.Before.trans (b := "b") (Graph.Before.edge (by decide)) (Graph.Before.edge (by decide))
 
 end Bartiq
